@@ -1,17 +1,24 @@
 #!/bin/bash
 # tools/mutest.sh <patch.diff> <tier> <ID>...   : apply a patch to a scratch copy of /repo, run the repo's own
-# tests there (must still pass), then run the given checks against the copy; the copy is removed afterwards.
+# tests there (must still pass), optionally run DEMO=<demo.py> before/after, then run the given checks against
+# the copy; the copy is removed afterwards.
 set -u
 patch=$(realpath "$1"); tier=$2; shift 2
 d=$(mktemp -d /tmp/mut_XXXXXX)
 trap 'rm -rf "$d"' EXIT
 rsync -a --exclude .git --exclude '__pycache__' /repo/ "$d/"
+if [ -n "${DEMO:-}" ]; then
+  ( cd "$d" && PYTHONDONTWRITEBYTECODE=1 timeout 300 /venv/bin/python "$DEMO" >/dev/null 2>&1 ); echo "demo on clean tree: rc=$? (want 0)"
+fi
 ( cd "$d" && patch -p1 -s < "$patch" ) || { echo "PATCH FAILED"; exit 3; }
+if [ -n "${DEMO:-}" ]; then
+  ( cd "$d" && PYTHONDONTWRITEBYTECODE=1 timeout 300 /venv/bin/python "$DEMO" >/dev/null 2>&1 ); echo "demo on patched tree: rc=$? (want non-zero)"
+fi
 if [ "${SKIP_BASELINE:-0}" != 1 ]; then
   /verif/tools/run_baseline.py "$d" || echo "MUTANT BREAKS BASELINE"
 fi
 for id in "$@"; do
   out=$(cd /verif && VERIF_REPO="$d" VERIF_NOEVIDENCE=1 ./check "$id" --tier "$tier" 2>&1)
   rc=$?
-  echo "== $id rc=$rc: $(echo "$out" | grep -c '^VIOLATION') violation line(s); $(echo "$out" | grep '^VIOLATION' -A1 | sed -n 2p | cut -c1-200)"
+  echo "== $id rc=$rc: $(echo "$out" | grep -c '^VIOLATION') violation line(s); $(echo "$out" | grep '^VIOLATION' -A1 | sed -n 2p | cut -c1-220)"
 done
